@@ -215,6 +215,13 @@ pub fn pools_live() -> bool {
 /// Run `f` on a rayon pool with one thread (`threads <= 1`) or several. The
 /// pools are created lazily, so a freshly forked child builds its own.
 pub fn with_threads<R: Send>(threads: usize, f: impl FnOnce() -> R + Send) -> R {
+    if is_miri() {
+        // Under Miri the calling thread itself is the only worker: no threads
+        // are spawned and nothing is ever stolen, which keeps crossbeam-epoch
+        // (whose intrusive list trips Stacked Borrows) out of the picture.
+        let pool = POOL_ONE.get_or_init(|| rayon::ThreadPoolBuilder::new().num_threads(1).use_current_thread().build().expect("pool"));
+        return pool.install(f);
+    }
     let pool = if threads <= 1 {
         POOL_ONE.get_or_init(|| rayon::ThreadPoolBuilder::new().num_threads(1).build().expect("pool"))
     } else {
@@ -304,6 +311,9 @@ impl Shared {
                     Err(_) => ChildResult::Broken { code: 103, progress },
                 }
             }
+            // The driver runs the ASan flavour with `exitcode=86` and without
+            // abort_on_error: a sanitizer report ends the child with that code.
+            Ok(86) => ChildResult::Signal { sig: -86, progress },
             Ok(code) => ChildResult::Broken { code, progress },
             Err(sig) => ChildResult::Signal { sig, progress },
         }
@@ -325,6 +335,7 @@ pub fn signal_name(sig: i32) -> String {
         libc::SIGABRT => "SIGABRT".into(),
         libc::SIGILL => "SIGILL".into(),
         libc::SIGFPE => "SIGFPE".into(),
+        -86 => "sanitizer_report".into(),
         other => format!("signal{}", other),
     }
 }
@@ -597,6 +608,38 @@ pub trait Engine {
     fn sample(&self, _case: &Self::Case, _o: &Outcome) -> Option<Json> {
         None
     }
+    /// Coarse class of a failure, used to bound the number of (expensive)
+    /// shrinks: at most two failures per class are shrunk and reported.
+    fn coarse_class(&self, case: &Self::Case, kind: &str) -> String;
+    /// Class of a case for fault bookkeeping: once two cases of a class have
+    /// faulted, the remaining guard-phase cases of that class are skipped.
+    fn fault_class(&self, case: &Self::Case) -> String;
+}
+
+/// Bounds the work spent on failures: when a tree is badly broken, thousands
+/// of cases fail and shrinking each of them would take hours.
+pub struct FailBudget {
+    per_class: std::collections::HashMap<String, u32>,
+    total: u32,
+}
+
+impl FailBudget {
+    pub fn new() -> FailBudget {
+        FailBudget { per_class: Default::default(), total: 0 }
+    }
+
+    /// True if this failure should be shrunk and reported.
+    pub fn admit(&mut self, rep: &mut Report, class: String) -> bool {
+        let n = self.per_class.entry(class).or_insert(0);
+        if *n >= 2 || self.total >= 40 {
+            rep.count("failures_not_shrunk_(same_class_already_reported)");
+            rep.suppressed_violations += 1;
+            return false;
+        }
+        *n += 1;
+        self.total += 1;
+        true
+    }
 }
 
 pub fn guard_pos_for(idx: u64) -> GuardPos {
@@ -616,68 +659,87 @@ pub fn exec_in_child<E: Engine>(e: &E, shared: &Shared, case: &E::Case, guard: O
 /// before this process creates rayon threads). Phase 2: `n_plain` cases
 /// in-process.
 pub fn drive<E: Engine>(e: &E, rep: &mut Report, n_guard: u64, n_plain: u64) {
+    let mut budget = FailBudget::new();
     if n_guard > 0 && !is_miri() {
         let shared = Shared::new();
         let cases: Vec<(E::Case, GuardPos)> = (0..n_guard).map(|i| (e.gen_case(i, true), guard_pos_for(i))).collect();
         let batch = 250usize;
         let mut next = 0usize;
         let mut faults = 0u32;
-        let handle = |rep: &mut Report, case: &E::Case, pos: GuardPos, o: &Outcome| {
+        let mut fault_classes: std::collections::HashMap<String, u32> = Default::default();
+        let handle = |rep: &mut Report, budget: &mut FailBudget, case: &E::Case, pos: GuardPos, o: &Outcome| {
             e.record(rep, case, o, true);
-            if o.fail_kind().is_some() {
-                e.report_failure(rep, case, Some(pos), o, Some(&shared));
+            if let Some(kind) = o.fail_kind() {
+                if budget.admit(rep, e.coarse_class(case, kind)) {
+                    e.report_failure(rep, case, Some(pos), o, Some(&shared));
+                }
             }
         };
-        let run_batch = |from: usize, to: usize| {
+        let run_batch = |idxs: &[usize]| {
             shared.run(|progress| {
-                let mut outs = Vec::with_capacity(to - from);
-                for i in from..to {
-                    progress.store(i as u64, Ordering::SeqCst);
+                let mut outs = Vec::with_capacity(idxs.len());
+                for (pos_in_batch, &i) in idxs.iter().enumerate() {
+                    progress.store(pos_in_batch as u64, Ordering::SeqCst);
                     let (case, pos) = &cases[i];
                     outs.push(e.exec(case, Some(*pos)).to_json());
                 }
                 json!(outs)
             })
         };
-        while next < cases.len() && faults < 6 {
-            let end = (next + batch).min(cases.len());
-            match run_batch(next, end) {
+        while next < cases.len() && faults < 12 {
+            // Next batch, leaving out classes that already faulted twice.
+            let mut idxs = Vec::with_capacity(batch);
+            let mut end = next;
+            while end < cases.len() && idxs.len() < batch {
+                if fault_classes.get(&e.fault_class(&cases[end].0)).copied().unwrap_or(0) >= 2 {
+                    rep.count("guard_cases_skipped_(class_faulted_twice)");
+                } else {
+                    idxs.push(end);
+                }
+                end += 1;
+            }
+            if idxs.is_empty() {
+                next = end;
+                continue;
+            }
+            match run_batch(&idxs) {
                 ChildResult::Done(j) => {
                     for (k, oj) in j.as_array().cloned().unwrap_or_default().iter().enumerate() {
-                        let (case, pos) = &cases[next + k];
-                        handle(rep, case, *pos, &Outcome::from_json(oj));
+                        let (case, pos) = &cases[idxs[k]];
+                        handle(rep, &mut budget, case, *pos, &Outcome::from_json(oj));
                     }
                     next = end;
                 }
                 ChildResult::Signal { sig, progress } => {
                     faults += 1;
                     rep.count("faults_seen");
-                    let idx = progress as usize;
-                    if idx < next || idx >= end {
+                    let at = progress as usize;
+                    if at >= idxs.len() {
                         rep.inconclusive = Some(format!("guard-phase child died with {} outside a case", signal_name(sig)));
                         break;
                     }
-                    if idx > next {
+                    if at > 0 {
                         // The cases before the faulting one: re-run on their own.
-                        if let ChildResult::Done(j) = run_batch(next, idx) {
+                        if let ChildResult::Done(j) = run_batch(&idxs[..at]) {
                             for (k, oj) in j.as_array().cloned().unwrap_or_default().iter().enumerate() {
-                                let (case, pos) = &cases[next + k];
-                                handle(rep, case, *pos, &Outcome::from_json(oj));
+                                let (case, pos) = &cases[idxs[k]];
+                                handle(rep, &mut budget, case, *pos, &Outcome::from_json(oj));
                             }
                         } else {
                             rep.count("guard_batch_rerun_unstable");
                         }
                     }
                     // Confirm the fault on the single case before reporting it.
-                    let (case, pos) = &cases[idx];
+                    let (case, pos) = &cases[idxs[at]];
+                    *fault_classes.entry(e.fault_class(case)).or_insert(0) += 1;
                     let o = exec_in_child(e, &shared, case, Some(*pos));
                     if o.fail_kind().map(|k| k.starts_with("fault")).unwrap_or(false) {
                         rep.count("faults_confirmed");
                     } else {
                         rep.count("faults_not_reproduced_alone");
                     }
-                    handle(rep, case, *pos, &o);
-                    next = idx + 1;
+                    handle(rep, &mut budget, case, *pos, &o);
+                    next = idxs[at] + 1;
                 }
                 ChildResult::Broken { code, .. } => {
                     rep.inconclusive = Some(format!("guard-phase child exited with code {}", code));
@@ -685,8 +747,8 @@ pub fn drive<E: Engine>(e: &E, rep: &mut Report, n_guard: u64, n_plain: u64) {
                 }
             }
         }
-        if faults >= 6 {
-            rep.count("guard_phase_stopped_after_6_faults");
+        if faults >= 12 {
+            rep.count("guard_phase_stopped_after_12_faults");
         }
     }
     rep.add("faults_seen", 0);
@@ -696,8 +758,10 @@ pub fn drive<E: Engine>(e: &E, rep: &mut Report, n_guard: u64, n_plain: u64) {
         let case = e.gen_case(i, false);
         let o = e.exec(&case, None);
         e.record(rep, &case, &o, false);
-        if o.fail_kind().is_some() {
-            e.report_failure(rep, &case, None, &o, None);
+        if let Some(kind) = o.fail_kind() {
+            if budget.admit(rep, e.coarse_class(&case, kind)) {
+                e.report_failure(rep, &case, None, &o, None);
+            }
         } else if rep.wants_sample() && i % 97 == 3 {
             if let Some(s) = e.sample(&case, &o) {
                 rep.sample(|| s);
